@@ -313,3 +313,75 @@ func findNotFoundLoops(p *Prog, pk *packages.Package) []notFoundLoop {
 	}
 	return out
 }
+
+// callbackSite is one invocation of an adapter's callback, possibly inside a helper of the package that received the
+// callback as an argument. Frames lists, innermost first, the (call, function) pairs through which the site is
+// reached: Frames[0] is the invocation itself in its own function, Frames[1] the helper call in the caller, etc.
+type callbackSite struct {
+	Call   *ast.CallExpr
+	Info   *types.Info
+	Frames []callbackFrame
+}
+
+type callbackFrame struct {
+	Node ast.Node
+	Decl *ast.FuncDecl
+	Info *types.Info
+}
+
+// adapterCallbackSites finds every invocation of the function-typed parameter fobj of fr, following it into
+// same-package helpers it is handed to.
+func adapterCallbackSites(p *Prog, fr *FuncRef, fobj types.Object) []callbackSite {
+	var out []callbackSite
+	type work struct {
+		fr     *FuncRef
+		obj    types.Object
+		frames []callbackFrame
+	}
+	seen := map[*ast.FuncDecl]bool{}
+	var rec func(w work)
+	rec = func(w work) {
+		if w.fr == nil || w.fr.Decl.Body == nil || seen[w.fr.Decl] {
+			return
+		}
+		seen[w.fr.Decl] = true
+		info := w.fr.Info()
+		ast.Inspect(w.fr.Decl.Body, func(n ast.Node) bool {
+			call, ok := n.(*ast.CallExpr)
+			if !ok {
+				return true
+			}
+			if identObj(info, call.Fun) == w.obj {
+				frames := append([]callbackFrame{{call, w.fr.Decl, info}}, w.frames...)
+				out = append(out, callbackSite{call, info, frames})
+				return true
+			}
+			fn := Callee(info, call)
+			if fn == nil || fn.Pkg() != w.fr.Pkg.Types {
+				return true
+			}
+			for ai, a := range call.Args {
+				if identObj(info, a) != w.obj {
+					continue
+				}
+				h := p.DeclOf(fn)
+				if h == nil || h.Decl.Type.Params == nil {
+					continue
+				}
+				idx := 0
+				for _, fl := range h.Decl.Type.Params.List {
+					for _, nm := range fl.Names {
+						if idx == ai {
+							frames := append([]callbackFrame{{call, w.fr.Decl, info}}, w.frames...)
+							rec(work{h, h.Info().Defs[nm], frames})
+						}
+						idx++
+					}
+				}
+			}
+			return true
+		})
+	}
+	rec(work{fr, fobj, nil})
+	return out
+}
